@@ -15,7 +15,7 @@ RULE = (
     "configurations: S1 (two sequential tasks), S2 (parallel then task), S5b (over-committed parallel: several rows per step on one worker), "
     "S9 (three tasks stacked on one client, each ending exactly on a worker wake-up), S10 (8 s service times so that the driver's 30 s periodic "
     "post-processing fires inside a task), S11 (composite operation with two named dependent sub-requests), S12 (the last task ends exactly on a "
-    "worker wake-up), S13 (completed-by with a sibling request in flight), S15 (40 s of short requests across the periodic post-processing; "
+    "worker wake-up), S13 (completed-by with a sibling request in flight), S15 (40 s of short requests across the periodic post-processing; S16: 40000 requests within one wake-up interval; "
     "default schedule) x layouts {1x1, 1x2, 2x1} x "
     "downsampling {1, 2} x sample queue {default, 2}; the Elasticsearch-backed store's buffer under every sequence of <= 4 (6) put / "
     "flush operations; schedules: every sequence of message deliveries, wake-ups, thread steps, time advances "
@@ -64,6 +64,9 @@ SHAPES = {
     # 40 s of short requests (4 per second): the driver's 30 s periodic post-processing cuts the task's samples into several batches with
     # several samples per throughput bucket (default schedule only)
     "S15": lambda: [T("a", 2, it=80), T("b", 1, it=1)],
+    # 40000 very short requests within one worker wake-up interval: far more samples queued when the worker finally drains (twice: wake-up,
+    # then join point) than any plausible batch size below the queue capacity (default schedule only)
+    "S16": lambda: [T("a", 1, it=40000), T("b", 1, it=1)],
     "S13": lambda: [P([loadgen.make_task("a", "a", clients=1, iterations=3, completes_parent=True),
                        loadgen.make_task("b", "b", clients=1, time_period=100_000, warmup_time_period=0)]), T("c", 2, it=1)],
 }
@@ -72,6 +75,8 @@ LAYOUTS = {"1x1": (["localhost"], 1), "1x2": (["localhost"], 2), "2x1": (["local
 
 def behaviour_for(shape):
     def behaviour(entry):
+        if shape == "S16":
+            return {"service_time": 0.0001220703125 if "/verif/a/" in entry["target"] else 0.5, "body": {}}
         st = 8.0 if shape == "S10" and "/verif/a/" in entry["target"] else (0.75 if shape == "S13" and "/verif/b/" in entry["target"] else 0.5)
         return {"service_time": st, "body": {}}
 
@@ -81,7 +86,7 @@ def behaviour_for(shape):
 def configs(tier):
     out = []
     for shape in SHAPES:
-        if shape == "S15":
+        if shape in ("S15", "S16"):
             continue
         for lname in LAYOUTS:
             if shape in ("S9", "S10", "S11", "S12") and lname != "1x1" and tier == "quick":
@@ -99,6 +104,7 @@ def check_race(cfg, ch, res):
     shape, lname, factor, qsize = cfg[:4]
     lp = len(cfg) > 4 and cfg[4] is True  # line-level preemption of worker handlers by the executor thread
     tp = len(cfg) > 4 and cfg[4] == "thread"  # preemption of the executor thread between the lines of Sampler.add
+    tm = len(cfg) > 4 and cfg[4] == "test-mode"  # --test-mode: no waiting period between steps, shorter wake-up interval
     schedule = SHAPES[shape]()
     hosts, cores = LAYOUTS[lname]
     extra = {}
@@ -118,7 +124,8 @@ def check_race(cfg, ch, res):
 
     drv.SamplePostprocessor.__call__ = recording_pp
     try:
-        r = racesim.run_race(schedule, hosts, cores, behaviour_for(shape), ch, horizon=HORIZON, cfg_extra=extra, store=True, line_preempt=lp, thread_preempt=tp)
+        r = racesim.run_race(schedule, hosts, cores, behaviour_for(shape), ch, horizon=HORIZON, cfg_extra=extra, store=True, line_preempt=lp, thread_preempt=tp, test_mode=tm,
+                             max_steps=2_000_000 if shape == "S16" else 20000)
     finally:
         drv.SamplePostprocessor.__call__ = orig_pp
     names = [n for _t, n, _m in r.received]
@@ -228,24 +235,36 @@ def check_race(cfg, ch, res):
     return r
 
 
-def differential(res):
-    """downsampling must not change throughput: same default schedule with factor 1 and 2"""
-    for lname in ("1x1", "1x2"):
-        check_race(("S15", lname, 1, None), explore.Chooser(()), res)
-    for shape in ("S1", "S5b", "S9"):
-        thr = {}
-        for factor in (1, 2):
-            sub = Result()
-            r = check_race((shape, "1x1", factor, None), explore.Chooser(()), sub)
-            res.merge(sub)
-            docs = r.rc.store.docs if r.rc.store is not None else []
-            thr[factor] = sorted((d.get("task"), d["sample-type"], round(d["value"], 9), round(d["relative-time"], 6)) for d in docs if d["name"] == "throughput")
-        if thr[1] != thr[2]:
-            res.violation(
-                f"samples:throughput-depends-on-downsampling:{shape}",
-                f"{shape}: throughput records with factor 1 {thr[1][:6]} vs factor 2 {thr[2][:6]}",
-                {"cfg": [shape, "1x1", 2, None], "choices": [], "differential": True},
-            )
+DIFF_JOBS = [("single", "S16", "1x1"), ("single", "S15", "1x1"), ("single", "S15", "1x2"), ("pair", "S1"), ("pair", "S5b"), ("pair", "S9")]
+
+
+def _diff_job(job):
+    res = Result()
+    if job[0] == "single":
+        check_race((job[1], job[2], 1, None), explore.Chooser(()), res)
+        return res
+    shape = job[1]
+    thr = {}
+    for factor in (1, 2):
+        r = check_race((shape, "1x1", factor, None), explore.Chooser(()), res)
+        docs = r.rc.store.docs if r.rc.store is not None else []
+        thr[factor] = sorted((d.get("task"), d["sample-type"], round(d["value"], 9), round(d["relative-time"], 6)) for d in docs if d["name"] == "throughput")
+    if thr[1] != thr[2]:
+        res.violation(
+            f"samples:throughput-depends-on-downsampling:{shape}",
+            f"{shape}: throughput records with factor 1 {thr[1][:6]} vs factor 2 {thr[2][:6]}",
+            {"cfg": [shape, "1x1", 2, None], "choices": [], "differential": True},
+        )
+    return res
+
+
+def differential(res, seed=0, parallel=True):
+    """default-schedule-only scenarios (long tasks) and: downsampling must not change throughput (same default schedule, factor 1 and 2)"""
+    if parallel:
+        res.merge(par.pmap(_diff_job, DIFF_JOBS, seed=seed))
+    else:
+        for job in DIFF_JOBS:
+            res.merge(_diff_job(job))
 
 
 def check_es_store_buffer(res, maxlen):
@@ -338,7 +357,12 @@ def run(tier, seed):
     r3 = explore.explore_parallel(check_race, tcfgs, 1, seed=seed)
     res.merge(r3)
     res.extra["configurations_with_executor_thread_preemption"] = len(tcfgs)
-    differential(res)
+    # --test-mode races: the next step starts without a waiting period, the hand-over of a step's metrics races with the next step
+    mcfgs = [(c[0], c[1], c[2], c[3], "test-mode") for c in cfgs if c[0] in ("S1", "S2", "S5b", "S12") and c[2] == 1 and c[3] is None]
+    r4 = explore.explore_parallel(check_race, mcfgs, 1, seed=seed)
+    res.merge(r4)
+    res.extra["configurations_in_test_mode"] = len(mcfgs)
+    differential(res, seed=seed)
     check_es_store_buffer(res, 4 if tier == "quick" else 6)
     res.extra["configurations"] = len(cfgs)
     res.extra["configurations_at_bound_2"] = len(deep)
@@ -353,7 +377,7 @@ def replay(data):
         return [v for lst in res.violations.values() for v in lst]
     c = data["cfg"]
     if data.get("differential"):
-        differential(res)
+        differential(res, parallel=False)
     else:
         check_race(tuple(c), explore.Chooser(tuple(data["choices"])), res)
     return [v for lst in res.violations.values() for v in lst]
